@@ -141,6 +141,9 @@ type SimPeer struct {
 	// latest handshake completed.
 	clientTipAtHandshake int32
 	handshakeAt          time.Time
+	// clientCuts: established connections to this node that the client
+	// closed on its own.
+	clientCuts int
 	// cfAsked: heights for which the client asked this node for filter
 	// headers and the answer reached the client's connection (an answer
 	// lost with a connection the client itself had closed meanwhile does
